@@ -18,8 +18,8 @@ func init() {
 	core.Register(&core.Rule{
 		Name: "R-UNITS",
 		Clause: "C08/C19 'distances are compared and combined as chord angles': a ChordAngle is a squared chord length, which is not additive in the angle - outside package s1 two ChordAngle " +
-			"values are never combined with the built-in + or - (angles are added with ChordAngle.Add / Sub or as s1.Angle); the exceptions are StraightChordAngle - x, the exact chord angle " +
-			"of the antipodal point, and the two distance.sub methods that apply the MaxError allowance (named, with the reason).",
+			"values are never combined with the built-in + or - (angles are added with ChordAngle.Add / Sub or as s1.Angle); the only exception is StraightChordAngle - x, the exact chord angle " +
+			"of the antipodal point.",
 		Min: 6,
 		Run: runUnits,
 	})
@@ -30,11 +30,12 @@ func isChordAngle(t types.Type) bool {
 	return ok && n.Obj().Name() == "ChordAngle" && n.Obj().Pkg() != nil && n.Obj().Pkg().Name() == "s1"
 }
 
-// unitsExceptions: confirmed by reading.
-var unitsExceptions = map[string]string{
-	"(s2.minDistance).sub": "subtracts the query's MaxError allowance in squared-chord units: d^2 - e^2 >= chord^2(angle(d) - angle(e)), so the limit shrinks by less than an angular subtraction would - the search only prunes less",
-	"(s2.maxDistance).sub": "adds the MaxError allowance in squared-chord units (furthest-edge mirror of minDistance.sub): d^2 + e^2 <= chord^2(angle(d) + angle(e)), again the conservative direction",
-}
+// unitsExceptions: none. Until the seventh round this table excused (s2.minDistance).sub and (s2.maxDistance).sub, the
+// two methods that move a distance limit by the MaxError allowance with the built-in - and +, on the argument that
+// d^2 - e^2 errs on the conservative side. That argument overlooked that the raw difference does not saturate: the limit
+// went below 0 (above 4) and queries with a ShapeIndex target reported distances outside [0, 4] (defect D32). The
+// rule's original report was right; the exceptions were a mistake and are gone with the repair.
+var unitsExceptions = map[string]string{}
 
 func runUnits(c *core.Ctx) []core.Obligation {
 	var obs []core.Obligation
@@ -148,6 +149,7 @@ func runUnits(c *core.Ctx) []core.Obligation {
 		})
 	}
 	obs = append(obs, unitsScaleAndWrap(c)...)
+	obs = append(obs, latitudeByAsin(c)...)
 	return obs
 }
 
